@@ -18,7 +18,7 @@ import (
 // start and end time of every call are recorded.
 type verifListScript struct {
 	mu      sync.Mutex
-	pattern []int // 0 success, 1 transport error, 2 status 500, 3 malformed JSON, 4 status 404, 5/6/7 status 500/503/401 with an empty body, 8 success with an empty body, 9/10 status 200 whose body breaks off after 0 / 3 bytes
+	pattern []int // 0 success, 1 transport error, 2 status 500, 3 malformed JSON, 4 status 404, 5/6/7 status 500/503/401 with an empty body, 8 success with an empty body, 9/10 status 200 whose body breaks off after 0 / 3 bytes, 11-15 status 204 / 202 [] / 304 / 302 / 201 [] (anything but 200 is a failed poll)
 	starts  []time.Time
 	ends    []time.Time
 	cancel  context.CancelFunc
@@ -75,6 +75,16 @@ func (s *verifListScript) RoundTrip(r *http.Request) (*http.Response, error) {
 		resp.Body = io.NopCloser(&verifCutBody{data: []byte(`["a`), err: io.ErrUnexpectedEOF})
 		resp.ContentLength = 12
 		return resp, nil
+	case 11:
+		return mk(204, ""), nil
+	case 12:
+		return mk(202, "[]"), nil
+	case 13:
+		return mk(304, ""), nil
+	case 14:
+		return mk(302, ""), nil // (no Location: the client hands the response over as it is)
+	case 15:
+		return mk(201, "[]"), nil
 	}
 	return mk(200, "[]"), nil
 }
@@ -115,6 +125,7 @@ func TestVerifC08Loop(t *testing.T) {
 	patterns = append(patterns, []int{5, 5, 5, 6, 7, 5, 8, 6, 6, 0})
 	patterns = append(patterns, []int{2, 8, 1, 1, 8, 8, 7, 7, 7, 7})
 	patterns = append(patterns, []int{9, 9, 9, 9, 10, 10, 9, 0, 10, 9, 9, 0})
+	patterns = append(patterns, []int{11, 11, 11, 12, 13, 14, 15, 0, 11, 12, 2, 13, 0})
 	nrand := 10
 	if verifThorough() {
 		nrand = 60
